@@ -37,4 +37,9 @@ func TestCheckQueueLimits(t *testing.T) {
 		func(t *rapid.T) *sim.World { return sim.GenWorld(t, profile()) }, sim.JudgeQueueLimits)
 }
 
+// pod groups and queues edited between cycles of a long-running scheduler right after it wrote their status (families.go)
+func TestCheckSpecEditFamilies(t *testing.T) {
+	sim.CheckProperty(t, "C08", kit.Budget{Quick: 1500, Thorough: 60000}, sim.GenSpecEditFamily, sim.JudgeQueueLimits)
+}
+
 func TestReplay(t *testing.T) { sim.ReplayProperty(t, sim.JudgeQueueLimits, 20) }
